@@ -254,7 +254,7 @@ fn expanded_answers(q: &Name, t: u16, labels: usize, apex: &Name) -> Vec<Record>
 }
 
 fn call_h2(apex: &Name, c: &H2Case) -> Result<Proof, mon::PanicRecord> {
-    let query = Query::query(hname(&c.q), RecordType::from(c.t));
+    let query = Query::new(hname(&c.q), RecordType::from(c.t));
     let soa = hname(apex);
     let answers = match c.claim {
         Claim::Expansion { labels } => expanded_answers(&c.q, c.t, labels, apex),
@@ -365,23 +365,23 @@ fn proof_name(p: Proof) -> &'static str {
     }
 }
 
-/// parameter / mixture class of a presented set (part of every signature)
+/// parameter / mixture class of a presented set (part of every signature): a set whose records
+/// all sit in the response's zone under one parameter set is `plain` / `optout` (also when those
+/// parameters are not the ones the zone was first generated with – a chain is a chain); anything
+/// else is `mixed:` + the kinds of foreign records present
 fn pclass(env: &Env, c: &H2Case) -> String {
+    let first = &c.s[0];
+    let homogeneous = c.s.iter().all(|r| r.zone == env.z.apex && r.hp == first.hp);
+    if homogeneous {
+        return if c.s.iter().any(|r| r.n3.opt_out) { "optout".into() } else { "plain".into() };
+    }
     let mut tags: BTreeSet<&str> = BTreeSet::new();
     for r in &c.s {
         if r.tag != "genuine" {
             tags.insert(r.tag.as_str());
         }
     }
-    let all_foreign = c.s.iter().all(|r| r.tag != "genuine");
-    if tags.is_empty() {
-        env.p.class().to_string()
-    } else if all_foreign && tags.len() == 1 && !tags.iter().next().unwrap().starts_with("owner:") && *tags.iter().next().unwrap() != "sibling" {
-        // a homogeneous set from the same zone under other parameters is just another genuine chain
-        format!("{}-otherparams", if c.s[0].n3.opt_out { "optout" } else { "plain" })
-    } else {
-        format!("mixed:{}", tags.into_iter().collect::<Vec<_>>().join(","))
-    }
+    format!("mixed:{}", tags.into_iter().collect::<Vec<_>>().join(","))
 }
 
 #[derive(PartialEq)]
@@ -466,7 +466,7 @@ pub fn judge(env: &mut Env, c: &H2Case, verdict: Proof, notes: &mut Vec<String>)
         } else {
             out.push(Finding {
                 rule: "foreign-zone-secure",
-                sig: format!("{}|{}|soa={}|{}|validator", c.claim.as_str(), foreign_class.unwrap_or("?"), c.soa as u8, pc),
+                sig: format!("{}|{}|soa={}|validator", c.claim.as_str(), foreign_class.unwrap_or("?"), c.soa as u8),
                 expected: json!({"verdict": "not Secure", "why": "no presented NSEC3 is owned by the response's zone"}),
             });
         }
@@ -474,11 +474,12 @@ pub fn judge(env: &mut Env, c: &H2Case, verdict: Proof, notes: &mut Vec<String>)
     }
     // ---- (a) truth of the claim in the zone the records come from
     let truth = denial::claim_truth(env.z, &c.q, c.t, &c.claim);
+    let apexf = if c.q == env.z.apex { ",apex" } else { "" };
     match &truth {
         Truth::False(reason) => {
             out.push(Finding {
                 rule: "secure-claim-false",
-                sig: format!("{}|{}|{}|validator", c.claim.as_str(), reason, pc),
+                sig: format!("{}|{reason}{apexf}|{}|validator", c.claim.as_str(), pc),
                 expected: json!({"verdict": "not Secure", "why": format!("the claim is false in the zone: {reason}")}),
             });
             return out;
@@ -486,7 +487,7 @@ pub fn judge(env: &mut Env, c: &H2Case, verdict: Proof, notes: &mut Vec<String>)
         Truth::NotEntailable(reason) => {
             out.push(Finding {
                 rule: "secure-claim-unentailable",
-                sig: format!("{}|{}|{}|validator", c.claim.as_str(), reason, pc),
+                sig: format!("{}|{reason}|{}|validator", c.claim.as_str(), pc),
                 expected: json!({"verdict": "not Secure", "why": format!("records of this zone cannot prove anything here: {reason} (RFC 5155 8.3/8.5, RFC 6840 4.1)")}),
             });
             return out;
@@ -512,7 +513,7 @@ pub fn judge(env: &mut Env, c: &H2Case, verdict: Proof, notes: &mut Vec<String>)
             "claim_in_counter_model": cm.truth.reason(),
             "counter_model_zone": z2.map(|z| z.to_text()),
         }));
-        if truth == Truth::True {
+        if truth == Truth::True || matches!(c.claim, Claim::Expansion { .. }) {
             let n3s: Vec<&N3> = g.iter().map(|r| &r.n3).collect();
             let z = env.z;
             let hs = env.hasher(&k.1);
@@ -526,23 +527,26 @@ pub fn judge(env: &mut Env, c: &H2Case, verdict: Proof, notes: &mut Vec<String>)
             }
         }
     }
-    let feature = match (&truth, &best) {
-        (Truth::True, Some(r)) => {
+    let feature = match &best {
+        Some(r) => {
             let mut f = format!("{}:missing={}", r.sub, r.missing());
             if r.nc_optout {
                 f.push_str(",nc-optout");
             }
+            if r.qname_matched {
+                f.push_str(",qname-matched");
+            }
             if c.q == env.z.apex {
                 f.push_str(",apex");
             }
-            if r.complete() && !r.nc_optout {
+            if truth == Truth::True && r.complete() && !r.nc_optout {
                 // the reference proof is complete and yet a counter-model exists: the two halves
                 // of the oracle disagree — never report this as a finding of hickory
                 notes.push("oracle-inconsistency".into());
             }
             f
         }
-        _ => format!("ambiguous:{}", truth.reason()),
+        None => format!("ambiguous:{}", truth.reason()),
     };
     out.push(Finding {
         rule: "secure-not-entailed",
@@ -558,11 +562,76 @@ pub fn judge(env: &mut Env, c: &H2Case, verdict: Proof, notes: &mut Vec<String>)
 pub struct Runner<'r> {
     pub rep: &'r mut Reporter,
     reported: BTreeMap<String, u64>,
+    raw_seen: BTreeMap<String, u64>,
+    pub max_minimise_per_raw: u64,
+}
+
+/// Does the Secure verdict depend on how the validator treats the wrap-around record (owner hash
+/// >= next hash)? Present that record as two non-wrapping records with the same coverage —
+/// (owner, ff..ff) and (00..00, next) — and ask again.
+fn wrap_dependent(apex: &Name, c: &H2Case) -> bool {
+    if !c.s.iter().any(|r| r.n3.hash >= r.n3.next) {
+        return false;
+    }
+    let mut t = c.clone();
+    t.s.clear();
+    for r in &c.s {
+        if r.n3.hash >= r.n3.next {
+            let len = r.n3.hash.len();
+            let hi = N3 { hash: r.n3.hash.clone(), next: vec![0xff; len], types: r.n3.types.clone(), opt_out: r.n3.opt_out, of: r.n3.of.clone() };
+            t.s.push(Rec::new(&r.zone, &r.hp, hi, &r.tag));
+            if r.n3.next.iter().any(|b| *b != 0) {
+                let lo = N3 { hash: vec![0; len], next: r.n3.next.clone(), types: BTreeSet::new(), opt_out: r.n3.opt_out, of: Vec::new() };
+                t.s.push(Rec::new(&r.zone, &r.hp, lo, &r.tag));
+            }
+        } else {
+            t.s.push(r.clone());
+        }
+    }
+    !matches!(call_h2(apex, &t), Ok(Proof::Secure))
+}
+
+/// Greedy reduction of a violating Secure case: drop records one at a time (foreign records
+/// first, then the wrap-around record, then the rest in hash order) while the validator still
+/// says Secure and the same oracle clause still fires.
+fn minimise(env: &mut Env, c: &H2Case, f: Finding) -> (H2Case, Finding) {
+    let apex = env.z.apex.clone();
+    let mut cur = c.clone();
+    let mut curf = f;
+    loop {
+        let mut order: Vec<usize> = (0..cur.s.len()).collect();
+        order.sort_by_key(|i| {
+            let r = &cur.s[*i];
+            (if r.tag != "genuine" { 0 } else if r.n3.hash >= r.n3.next { 1 } else { 2 }, r.n3.hash.clone(), r.key())
+        });
+        let mut removed = false;
+        for i in order {
+            if cur.s.len() == 1 {
+                break;
+            }
+            let mut t = cur.clone();
+            t.s.remove(i);
+            if let Ok(Proof::Secure) = call_h2(&apex, &t) {
+                let mut notes = Vec::new();
+                // any clause that judges a Secure verdict will do: the minimal set is what matters
+                if let Some(f2) = judge(env, &t, Proof::Secure, &mut notes).into_iter().find(|x| x.rule != "hard-limit-not-bogus") {
+                    cur = t;
+                    curf = f2;
+                    removed = true;
+                    break;
+                }
+            }
+        }
+        if !removed {
+            break;
+        }
+    }
+    (cur, curf)
 }
 
 impl<'r> Runner<'r> {
     pub fn new(rep: &'r mut Reporter) -> Self {
-        Self { rep, reported: BTreeMap::new() }
+        Self { rep, reported: BTreeMap::new(), raw_seen: BTreeMap::new(), max_minimise_per_raw: 60 }
     }
 
     pub fn report(&mut self, rule: &str, sig: &str, case: impl FnOnce() -> Value, expected: Value, observed: Value) {
@@ -643,7 +712,37 @@ impl<'r> Runner<'r> {
         }
         for f in findings {
             let (z, p) = (env.z, env.p.clone());
-            self.report(f.rule, &f.sig, || c.to_json(z, &p), f.expected, json!({"verdict": vn}));
+            self.rep.count(&format!("raw/{}", f.rule));
+            if verdict != Proof::Secure {
+                self.report(f.rule, &f.sig, || c.to_json(z, &p), f.expected, json!({"verdict": vn}));
+                continue;
+            }
+            // reduce to a minimal still-violating set so that the signature describes what the
+            // validator relied on, not what else happened to be in the set
+            let raw = format!("{}|{}", f.rule, f.sig);
+            let n = self.raw_seen.entry(raw).or_insert(0);
+            *n += 1;
+            if *n > self.max_minimise_per_raw {
+                self.rep.count("deviations");
+                self.rep.count("deviations_not_minimised(raw signature seen often)");
+                continue;
+            }
+            let (cm, mut fm) = minimise(env, c, f);
+            if cm.s.len() < c.s.len() {
+                self.rep.count("minimised");
+            }
+            let mut observed = json!({"verdict": vn, "reduced_from_records": c.s.len()});
+            if wrap_dependent(&z.apex, &cm) {
+                // differential discriminator: the verdict is no longer Secure when the chain's
+                // last (wrap-around) record is presented as the two equivalent non-wrapping spans
+                let coarse = {
+                    let pc = pclass(env, &cm);
+                    if pc.starts_with("mixed") { "mixed".to_string() } else { pc }
+                };
+                fm.sig = format!("{}|wrap-around-dependent|{}|validator", cm.claim.as_str(), coarse);
+                observed["verdict_with_wraparound_record_split_into_two_plain_spans"] = json!("not Secure");
+            }
+            self.report(fm.rule, &fm.sig, || cm.to_json(z, &p), fm.expected, observed);
         }
         Some(verdict)
     }
@@ -773,6 +872,7 @@ fn sweep_zone(r: &mut Runner, rng: &mut Rng, z: &Zone, p: &ZParams, b: &Budget, 
         r.rep.count("optout_zones_with_insecure_delegation");
     }
     let sibling = refzone::name("y.");
+    let chain_n3s: Vec<N3> = chain.iter().map(|r| r.n3.clone()).collect();
     for (qi, q) in qnames.iter().enumerate() {
         if allsub && b.allsubsets_qstride > 1 && (qi as u64 + zi) % b.allsubsets_qstride as u64 != 0 {
             continue;
@@ -832,9 +932,8 @@ fn sweep_zone(r: &mut Runner, rng: &mut Rng, z: &Zone, p: &ZParams, b: &Budget, 
                 for _ in 0..b.mixtures {
                     let base: Vec<usize> = {
                         let hs = env.hasher(&p.hp);
-                        let n3s: Vec<N3> = chain.iter().map(|r| r.n3.clone()).collect();
                         let mut v = if denial::claim_truth(z, q, t, &claim) == Truth::True && rng.chance(3, 4) {
-                            denial::reference_proof(z, q, &claim, p.opt_out, &n3s, hs)
+                            denial::reference_proof(z, q, &claim, p.opt_out, &chain_n3s, hs)
                         } else {
                             random_subset(rng, n, &rel)
                         };
